@@ -658,3 +658,31 @@ Proof.
 Qed.
 
 End Flat.
+
+(* ---------------------------------------------------------------- the reported type sets are inhabited
+   An accepted string never reports an argument with an empty type set: the hypothesis args_match of flat_formats is
+   satisfiable position by position, so flat_formats is not vacuous for any accepted string. *)
+Lemma types_nonempty U M s sg key tp n :
+  pybrace_parse U M s = Ok sg -> In (key, (tp, n)) (argument_map sg) -> t_empty tp = false.
+Proof.
+  unfold pybrace_parse. destruct (bloop U M (S (length s)) s b0) as [fin| |]; cbn [obind]; try discriminate.
+  destruct (existsb (fun kv => t_empty (common_types (snd kv))) (b_map fin)) eqn:Ee; [discriminate|].
+  intros H Hin. injection H as <-. cbn [argument_map] in Hin.
+  apply in_map_iff in Hin. destruct Hin as [kv [Hkv Hin]]. injection Hkv as _ <- _.
+  destruct (t_empty (common_types (snd kv))) eqn:Et; [|reflexivity].
+  assert (existsb (fun kv => t_empty (common_types (snd kv))) (b_map fin) = true) as Hc.
+  { apply existsb_exists. exists kv. split; assumption. }
+  rewrite Hc in Ee. discriminate.
+Qed.
+
+Lemma nonempty_inhabited tp : t_empty tp = false -> exists v, val_in v tp = true.
+Proof.
+  unfold t_empty. destruct tp as [ts ti tf]. cbn [t_str t_int t_float].
+  destruct ts; [intros _; exists (BStr []); reflexivity|].
+  destruct ti; [intros _; exists (BInt 0); reflexivity|].
+  destruct tf; [intros _; exists BFloat; reflexivity|]. discriminate.
+Qed.
+
+Theorem types_inhabited U M s sg key tp n :
+  pybrace_parse U M s = Ok sg -> In (key, (tp, n)) (argument_map sg) -> exists v, val_in v tp = true.
+Proof. intros H Hin. apply nonempty_inhabited. exact (types_nonempty U M s sg key tp n H Hin). Qed.
